@@ -25,7 +25,7 @@ TIMEOUT = {'quick': 1500, 'thorough': 3 * 3600}
 RULE = ('R1 cases: (notation, pair of argument tuples). R2 cases: (module, optimize, phase file). distinct_nontrivial = distinct (notation, tuple pair) whose expansions '
         'differ plus distinct module files with at least 5 steps.')
 ASSUMPTIONS = ['arguments in positions the definition does not depend on may legitimately be hidden', 'Instantiate keys are compared up to the documented reversal between the two formats']
-FLOORS = {'quick': {'r1_pairs': 3000, 'r1_pairs_different_expansion': 2000, 'r2_files_compared': 400, 'r2_steps_compared': 10000, 'mprint_calls': 2000, 'r1_instantiated_applications': 100, 'r1_unsorted_key_applications': 50, 'r1_self_nested_pairs': 30, 'r1_partial_then_instantiated_applications': 20,
+FLOORS = {'quick': {'r1_pairs': 3000, 'modules_with_repeated_constraint_entries': 16, 'r1_pairs_different_expansion': 2000, 'r2_files_compared': 400, 'r2_steps_compared': 10000, 'mprint_calls': 2000, 'r1_instantiated_applications': 100, 'r1_unsorted_key_applications': 50, 'r1_self_nested_pairs': 30, 'r1_partial_then_instantiated_applications': 20,
                     'family:propositional': 500, 'family:definedness': 400, 'family:kore': 1500, 'family:forall': 100, 'family:sorted_exists': 100, 'family:kore_exists': 100, 'family:nary_app': 300}}
 FLOORS['thorough'] = dict(FLOORS['quick'])
 
@@ -279,7 +279,11 @@ def shard(ctx):
     todo += [(f'gen{i}', None) for i in range(ctx.scale(240, 12000))]
     for name, f in todo:
         try:
-            b = mw.Built(f(), {'shipped'}, [name]) if f else mw.random_module(rng)
+            if f is None and name.endswith('7'):
+                b = mw.repeated_constraint_module(rng)      # every tenth: constraint lists that name a variable twice
+                ctx.count('modules_with_repeated_constraint_entries')
+            else:
+                b = mw.Built(f(), {'shipped'}, [name]) if f else mw.random_module(rng)
             # register every shipped notation so that applications are printed through their format strings
             b.mod.add_notations([n for n, fam in repo.all_notations().values()])
         except Exception as ex:
